@@ -34,6 +34,7 @@ def run(ctx) -> None:
     ctx.rule("R1", "--dry: no FS_WRITE / VCS_MUTATE / HOOK / PROC reachable; diff path effects are read/echo/exit only")
     ctx.rule("R2", "diff path and write path agree on iterator, open keywords, rfd_from_content call, record, new_vinfo provenance")
     ctx.rule("R3", "every validation failure of the write path is also a failure of the diff path")
+    ctx.rule("R4", "the printed diff is the computed diff: between difflib and click.echo the text is only joined / split at line breaks and trimmed of trailing newlines")
 
     # ---------------------------------------------------------------- R1
     upd = prog.function("cli.update")
@@ -236,3 +237,40 @@ def run(ctx) -> None:
         oc = shapes.handler_outcome(pcfg, h)["outcomes"]
         ctx.check("R3", oc and all(o.startswith("exit:") and o not in ("exit:0", "exit:None") for o in oc), f"_print_diff: handler at L{pcfg.nodes[h].lineno} exits non-zero",
                   "cli._print_diff: a failing diff does not end in a non-zero exit", f"{sorted(oc)}", loc=pd.loc(pcfg.nodes[h].ast))
+
+    # ---------------------------------------------------------------- R4
+    # a unified diff contains lines that consist of a single blank (context line of an empty line): trimming anything
+    # but '\n' at the end, or any other edit of the text, makes the printed diff not apply / not show what a real run does
+    TRIMS = {"strip", "lstrip", "rstrip"}
+    EDITS = {"replace", "expandtabs", "lower", "upper", "title", "casefold", "capitalize", "swapcase", "translate", "removeprefix", "removesuffix",
+             "zfill", "center", "ljust", "rjust", "format"}
+    diff_fns = set()
+    for rw, _ver, _gd in ENGINES:
+        diff_fns.add(f"{rw}.diff")
+    diff_fns |= {fq for fq in effects.reachable_functions(["cli._print_diff"]) if fq.startswith("cli.") or fq == "rewrite.diff_lines"}
+    n_fn = 0
+    for fq in sorted(diff_fns):
+        fn = prog.function(fq)
+        n_fn += 1
+        ctx.visit(fq)
+        # text that is (part of) the diff: parameters / locals named by the data flow from difflib or diff()/get_diff()
+        seeds = {p_ for p_ in fn.all_params if "diff" in p_.lower()}
+        for _st, tg, val in shapes.iter_assigns(fn.node):
+            if any(isinstance(c, ast.Call) and (unparse(c.func).split(".")[-1] in ("diff", "get_diff", "_v1_get_diff", "_v2_get_diff", "diff_lines", "unified_diff")) for c in ast.walk(val)):
+                seeds |= {x.id for x in ast.walk(tg) if isinstance(x, ast.Name)}
+        tainted = shapes.tainted_names(fn, seeds) if seeds else set()
+        for c in ast.walk(fn.node):
+            if not (isinstance(c, ast.Call) and isinstance(c.func, ast.Attribute) and (c.func.attr in TRIMS or c.func.attr in EDITS)):
+                continue
+            if not shapes.expr_tainted(c.func.value, tainted):
+                continue
+            if c.func.attr in TRIMS:
+                chars = const_str(c.args[0]) if c.args else None
+                ok = c.func.attr == "rstrip" and chars is not None and set(chars) <= {"\n"}
+                ctx.check("R4", ok, f"{fq} L{c.lineno}: `{unparse(c)}` trims trailing newlines only",
+                          f"{fq}: the diff text is trimmed of more than trailing newlines",
+                          f"`{unparse(c)}` also removes blanks: a hunk that ends with the context line of an empty line (a line consisting of one space) loses it, "
+                          f"the printed diff no longer applies", loc=fn.loc(c), witness={"last diff line": " "})
+            else:
+                ctx.bad("R4", f"{fq}: the diff text is edited before it is printed", f"`{unparse(c)[:80]}`", loc=fn.loc(c), what=f"{fq}: diff text is not edited")
+    ctx.floor("R4", "functions between difflib and click.echo", n_fn, 6)
